@@ -52,6 +52,8 @@ CORPORA = {
     "bgen": dict(kind="mutate", gen="builder_cases", base=["builder"], quick=dict(count=600), thorough=dict(count=15000), profiles=DEV_REL, place="end"),
     "hbgen": dict(kind="mutate", gen="hbuilder_cases", base=["hbuilder"], quick=dict(count=1500), thorough=dict(count=20000), profiles=DEV_REL, place="end"),
     "utf8": dict(model="MC_Utf8", quick=dict(MaxLen=3), thorough=dict(MaxLen=3), profiles=DEV_REL, place="end"),
+    "session": dict(kind="mutate", gen="session_cases", gen_all_files=True, base=["builder", "fields"],
+                    quick=dict(count=300), thorough=dict(count=6000), profiles=DEV_REL, place="end"),
     "load": dict(model="MC_Load", quick=dict(MaxT=72), thorough=dict(MaxT=160), profiles=DEV_REL, place="both"),
     "walk": dict(model="MC_Walk", quick=dict(MaxT=32), thorough=dict(MaxT=40), profiles=DEV_REL, place="both"),
 }
@@ -84,11 +86,11 @@ CHECKS = {
     "C17": dict(thorough_extra=["mut"], corpora=["str", "utf8", "ctor", "dst"],
                 rule="parse: all strings of length <= MaxStr over a 10-byte alphabet (NUL, ASCII, pieces of 2/3/4-byte sequences, invalid bytes) "
                      "x every cut of the declared size x 3 string kinds; build: texts of length 0..MaxContent with and without trailing NUL"),
-    "C06": dict(corpora=["builder", "bgen"],
+    "C06": dict(corpora=["builder", "bgen", "session"],
                 rule="all call sequences up to MaxSeq over 7 representative slots x 2 contents; every one of the 22 slots alone and in all ordered pairs; "
                      "seeded random subsets / orders / repeated calls of all 22 slots, the full set and every all-but-one subset (native generator "
                      "recombining the specification's argument records; NOT all 2^22 subsets)"),
-    "C07": dict(corpora=["ctor", "builder", "hbuilder"],
+    "C07": dict(corpora=["ctor", "builder", "hbuilder", "session"],
                 rule="every public constructor of both crates x 2 byte-marked argument sets; variable-length kinds with content lengths 0..MaxContent; "
                      "constructors reached through the builders' setters as well"),
     "C12": dict(corpora=["hbuilder", "hbgen"],
@@ -121,7 +123,7 @@ CHECKS = {
     "C01": dict(corpora=["fields", "getters", "dst", "sized", "custom", "fb", "rsdp", "adv", "efi", "elf", "walk", "load", "mut"],
                 rule="union of the boot-information corpora (every kind, every declared size, all framebuffer type bytes, "
                      "all walks); every call of every session is checked for crash/hang and for extents inside the owning tag"),
-    "C04": dict(thorough_extra=["mut"], corpora=["fields", "getters", "fb", "rsdp"],
+    "C04": dict(thorough_extra=["mut", "session"], corpora=["fields", "getters", "fb", "rsdp"],
                 rule="fields: every kind at its conformant size x 2 marker fills x 2 positions, every accessor; "
                      "getters: all sequences of <= MaxTags tags over 6 kinds (duplicates use different fills); fb: all 256 type bytes"),
     "C05": dict(thorough_extra=["mut"], corpora=["dst", "fb", "hdst"],
